@@ -1,5 +1,6 @@
 import NeumannModel.Graph.DeleteNode
 import NeumannModel.Graph.Query
+import NeumannModel.Graph.ConcOps
 /-
   C05 — property theorems for the graph store model.  ONLY property statements and their
   non-vacuity examples live here; helpers are in `Lemmas.lean`.
@@ -143,5 +144,92 @@ theorem rmw_lost_removal_witness :
   have hn : edgeAt (runSched [[Op.deleteEdge 1], [Op.deleteEdge 2]]
       [0, 1, 0, 1, 0, 1, 0, 1, 0, 0, 0, 1, 1, 1] twoNodesTwoEdges).2.kv 1 = none := by decide
   rw [hn] at hr; exact absurd hr (by simp)
+
+
+/-- the two per-edge tasks that `delete_node(1)`'s >=100-edge path hands to the rayon pool for the
+    parallel edges 1, 2 : 1→2 (one iteration of `delNodeParLoop` each) -/
+def parTask (e : Nat) : Th := ⟨delNodeParLoop 1 [e] false (fun _ => .done .ok), fun _ => True, fun _ => True⟩
+
+/-- INSIDE one `delete_node` call (no second client thread): the pool tasks of two parallel edges
+    both read `node:2:in = [1,2]`, write `[2]` resp. `[1]`: node 2 still lists the deleted edge 1. -/
+theorem delete_node_parallel_path_lost_removal_witness :
+    ¬ WF (runP [parTask 1, parTask 2] [0, 1, 0, 1, 0, 1, 0, 1] twoNodesTwoEdges).2.kv := by
+  intro hw
+  obtain ⟨r, hr, _⟩ := hw.in_sound 2 1 (by decide)
+  have hn : edgeAt (runP [parTask 1, parTask 2] [0, 1, 0, 1, 0, 1, 0, 1] twoNodesTwoEdges).2.kv 1 = none := by
+    decide
+  rw [hn] at hr; exact absurd hr (by simp)
+
+/-! ### concurrent: what DOES hold — operation sets with pairwise disjoint footprints -/
+
+/-- PARTIAL form of `QuiescentWF`.  Threads are programs (lists of atomic store calls) with a
+    footprint `F` (keys read or written) and a write footprint `W ⊆ F`; if the write footprint of
+    every thread is disjoint from the footprint of every other thread (`Disjoint`), each thread
+    alone stays inside its footprint from the initial store (`Stays`) and alone preserves `WF` on
+    every store agreeing with the initial one on its footprint, then EVERY interleaving of the
+    atomic store calls that lets all threads finish ends in a well-formed store — in fact in the
+    store of the serial run (`disjoint_interleaving_serial`).
+    What is missing w.r.t. the full statement (which is false, see the witnesses above): operations
+    whose footprints overlap; the id allocation is outside the programs (ids are pre-assigned, the
+    engine's atomic counters hand out distinct fresh ids); one operation per thread. Footprint
+    facts are proved for `create_edge` and `delete_edge` (`createEdgeTh_ok`, `deleteEdgeTh_ok`). -/
+theorem quiescent_wf_partial (ts : List Th) (m0 : KV) (a b : Nat) (hwf : WF m0)
+    (hst : ∀ (i : Nat) (t : Th), ts[i]? = some t → Stays t.F t.W t.p m0)
+    (hsub : SubFW ts) (hdisj : Disjoint ts)
+    (hpres : ∀ (i : Nat) (t : Th), ts[i]? = some t →
+      ∀ m', WF m' → (∀ k, t.F k → m' k = m0 k) → WF (finalOf t.p m'))
+    (sched : List Nat) (hdone : ∀ t ∈ (runP ts sched ⟨m0, a, b⟩).1, t.isDone = true) :
+    WF (runP ts sched ⟨m0, a, b⟩).2.kv := by
+  rw [disjoint_interleaving_serial ts m0 a b hst hsub hdisj sched hdone]
+  exact serial_wf ts m0 hwf hst hsub hdisj hpres
+
+/-- four nodes; `create_edge(1,2)` (id 1, undirected) and `create_edge(3,4)` (id 2) touch disjoint
+    keys: every complete interleaving of their 5 + 9 store calls is well-formed -/
+def fourNodes : St := applyAll St.empty [.createNode 0 0, .createNode 0 0, .createNode 0 0, .createNode 0 0]
+
+theorem disjoint_create_edges_wf (sched : List Nat)
+    (hdone : ∀ t ∈ (runP [createEdgeTh 1 1 2 false 0 0, createEdgeTh 2 3 4 true 0 0] sched fourNodes).1,
+      t.isDone = true) :
+    WF (runP [createEdgeTh 1 1 2 false 0 0, createEdgeTh 2 3 4 true 0 0] sched fourNodes).2.kv := by
+  have h1 := createEdgeTh_ok 1 1 2 false 0 0 fourNodes.kv (by decide) (by decide) (by decide)
+  have h2 := createEdgeTh_ok 2 3 4 true 0 0 fourNodes.kv (by decide) (by decide) (by decide)
+  have hcases : ∀ (i : Nat) (t : Th),
+      [createEdgeTh 1 1 2 false 0 0, createEdgeTh 2 3 4 true 0 0][i]? = some t →
+      (i = 0 ∧ t = createEdgeTh 1 1 2 false 0 0) ∨ (i = 1 ∧ t = createEdgeTh 2 3 4 true 0 0) := by
+    intro i t h
+    match i, h with
+    | 0, h => simp at h; exact Or.inl ⟨rfl, h.symm⟩
+    | 1, h => simp at h; exact Or.inr ⟨rfl, h.symm⟩
+    | n + 2, h => simp at h
+  apply quiescent_wf_partial _ fourNodes.kv fourNodes.nn fourNodes.ne (wf_of_any_history _)
+  · intro i t h; rcases hcases i t h with ⟨_, rfl⟩ | ⟨_, rfl⟩
+    · exact h1.1 _
+    · exact h2.1 _
+  · intro i t h; rcases hcases i t h with ⟨_, rfl⟩ | ⟨_, rfl⟩
+    · exact h1.2.1
+    · exact h2.2.1
+  · intro i j t u hij hi hj k hw hf
+    rcases hcases i t hi with ⟨rfl, rfl⟩ | ⟨rfl, rfl⟩ <;> rcases hcases j u hj with ⟨rfl, rfl⟩ | ⟨rfl, rfl⟩
+    · exact hij rfl
+    · simp only [createEdgeTh] at hw hf; grind
+    · simp only [createEdgeTh] at hw hf; grind
+    · exact hij rfl
+  · intro i t h; rcases hcases i t h with ⟨_, rfl⟩ | ⟨_, rfl⟩
+    · exact h1.2.2
+    · exact h2.2.2
+  · exact hdone
+
+/-- non-vacuity: a complete interleaving exists (alternating, then the rest of thread 0), and it is
+    well-formed with both edges present -/
+example : (runP [createEdgeTh 1 1 2 false 0 0, createEdgeTh 2 3 4 true 0 0]
+    [0, 1, 0, 1, 0, 1, 0, 1, 0, 1, 0, 0, 0, 0] fourNodes).1.all Th.isDone = true := by decide
+
+example : WF (runP [createEdgeTh 1 1 2 false 0 0, createEdgeTh 2 3 4 true 0 0]
+    [0, 1, 0, 1, 0, 1, 0, 1, 0, 1, 0, 0, 0, 0] fourNodes).2.kv :=
+  disjoint_create_edges_wf _ (by
+    intro t ht
+    have h : (runP [createEdgeTh 1 1 2 false 0 0, createEdgeTh 2 3 4 true 0 0]
+      [0, 1, 0, 1, 0, 1, 0, 1, 0, 1, 0, 0, 0, 0] fourNodes).1.all Th.isDone = true := by decide
+    exact List.all_eq_true.mp h t ht)
 
 end Neumann.Graph.Props
